@@ -23,6 +23,12 @@ Scenarios
             code mutates the registry (every cache is dropped) and then creates empty dictionaries of its own -- which
             CPython's dict free list serves from the memory of the caches just freed.  None of them may be written, the
             answer must be the one before or after the mutation, and later calls answer the registry's content
+  superself `queryAdapter` / `adapter_hook` / `queryMultiAdapter` on an instance of a SUBCLASS of `super` whose `__self__` is
+            computed (a property returning a fresh object): the factory must be handed a live object
+  genhook   (generation-checking flavour) the window inside `changed()` of a verifying lookup: while it reads the generations of
+            its base registries (an attribute read on an arbitrary registry object: a property here, another thread in
+            general) a COMPLETE lookup runs and caches its answer, and then the base is mutated.  The interrupted call may
+            answer old or new; every later call must answer the base's current content
   inmut     the dual schedule: a MUTATOR interrupted by lookups.  `inmut <flavour> <placement> <mutator> <how> [<stride>
             <offset>]`.  The registry stores its data in instrumented versions of the documented storage types
             (`_sequenceType`, `_mappingType`, `_providedType`, `_leafSequenceType` + `_addValueToLeaf` /
@@ -457,6 +463,81 @@ def run(lines, out, args):
                     got = "FAIL: the interrupted %s returned %r, neither the answer before (%r) nor after (%r) the mutation" % (ep, first, old, new)
                 elif any(x != new for x in later):
                     got = "FAIL: after the mutation %s keeps answering %r, the registry now holds %r (an answer computed before the mutation survived in the cache)" % (ep, later, new)
+            elif scen == "superself":
+                died, seen = [], []
+
+                class Temp:
+                    def __del__(self):
+                        died.append(1)
+
+                class S(super):
+                    @property
+                    def __self__(self):
+                        return Temp()
+
+                def factory(o):
+                    seen.append((type(o).__name__, len(died)))
+                    return "adapted"
+                reg = mkreg(flavour, lambda kind, lk, compute: compute())
+                reg.register((IR,), IP, "", factory)
+                for _ in range(3):
+                    Sub = type("ObSub", (Ob,), {})
+                    r = ask(reg, ep, S(Sub, Sub()))
+                    if r != "adapted" or not seen or seen[-1] != ("Temp", len(seen) - 1):
+                        got = "FAIL: %s on a super subclass with a computed __self__: the factory saw %r (type, temporaries already deallocated) and the call answered %r" % (ep, seen[-1:] or None, r)
+                        break
+            elif scen == "genhook":
+                state = {"hook": None, "skip": 0}
+
+                class HookedBase(A.AdapterRegistry):
+                    _gen = 0
+
+                    def _get(self):
+                        h = state["hook"]
+                        if h is not None:
+                            if state["skip"]:
+                                state["skip"] -= 1
+                            else:
+                                state["hook"] = None
+                                h()
+                        return self._gen
+
+                    def _set(self, value):
+                        self._gen = value
+                    _generation = property(_get, _set)
+                IPx = InterfaceClass("IPx", (Interface,), __module__="zi.gen")
+                base = HookedBase()
+                reg = A.VerifyingAdapterRegistry((base,))
+                base.register((IR,), IP, "", fac1)
+                base.subscribe((IR,), IP, fac1)
+                old, new = expect(ep, fac1), expect(ep, fac2)
+                for skip in (0, 1, 2):
+                    base.register((IR,), IP, "", fac1)
+                    base.unsubscribe((IR,), IP, fac2)
+                    if fac1 not in base.subscriptions((IR,), IP):
+                        base.subscribe((IR,), IP, fac1)
+                    warm = ask(reg, ep, ob)
+                    base.register((IR,), IPx, "", mkfac("unrelated-%d" % skip))        # an earlier, completed change (of an unrelated key): the next call re-verifies
+                    seen = []
+
+                    def interloper():
+                        seen.append(ask(reg, ep, ob))                  # a complete lookup ...
+                        base.register((IR,), IP, "", fac2)             # ... then a mutation of the base
+                        base.unsubscribe((IR,), IP, fac1)
+                        base.subscribe((IR,), IP, fac2)
+                    state["skip"], state["hook"] = skip, interloper
+                    first = ask(reg, ep, ob)
+                    fired = state["hook"] is None
+                    state["hook"] = None
+                    later = [ask(reg, ep, ob) for _ in range(2)]
+                    if warm != old:
+                        got = "FAIL: %s answers %r before anything happened, the base holds %r" % (ep, warm, old)
+                    elif fired and first not in (old, new):
+                        got = "FAIL: the interrupted %s returned %r, neither %r nor %r" % (ep, first, old, new)
+                    elif fired and any(x != new for x in later):
+                        got = "FAIL: a complete %s ran while changed() was reading the base generations (read #%d), then the base was changed; later calls keep answering %r, the base holds %r" % (ep, skip + 1, later, new)
+                    if got != "ok":
+                        break
             elif scen == "hashhook":
                 who = f[3]
                 state = {"armed": False, "pool": [], "reg": None}
